@@ -126,7 +126,7 @@ theorem Item.WF.kids_ne_nil {s : Nat} {l : Option (List Phrase)} {sub : Forest} 
   rcases h4 with h4 | h4
   · cases l with
     | none => simp at h4
-    | some ps => simp
+    | some ps => simp [leafItem]
   · cases sub with
     | nil => exact absurd rfl h4
     | cons t l' sub' next =>
@@ -278,7 +278,7 @@ theorem collect_rep {recs : List Rec} {data : Bytes} {views : List Rec} {items :
             | some ps =>
               -- the first queue entry is the leaf
               have hk : k = .leaf ps := by
-                simp only [kidsOf_eq, List.cons_append, List.nil_append, List.cons.injEq] at hkl
+                simp only [kidsOf_eq, leafItem, List.cons_append, List.nil_append, List.cons.injEq] at hkl
                 exact hkl.1.symm
               subst hk
               cases hk2 with
@@ -300,7 +300,7 @@ theorem collect_rep {recs : List Rec} {data : Bytes} {views : List Rec} {items :
             | none =>
               -- the first queue entry is a child node: its syllable field is not zero
               have hkm : k ∈ sortBy sylLt sub.toItems := by
-                simp only [kidsOf_eq, List.nil_append] at hkl
+                simp only [kidsOf_eq, leafItem, List.nil_append] at hkl
                 rw [hkl]; simp
               have hksyl : k.syl ≠ 0 := by
                 have := toItems_syl_pos hpre.2.2 k (mem_sortBy.mp hkm)
@@ -315,7 +315,7 @@ theorem tLookup_no_kids {st : Strategy} {key : List Nat} {s : Nat} {l : Option (
   have hl : l = none := by
     cases l with
     | none => rfl
-    | some ps => simp [kidsOf_eq] at h
+    | some ps => simp [kidsOf_eq, leafItem] at h
   cases key with
   | nil => simp [tLookup, tWalk, Item.leafPhrases, hl]
   | cons t rest => simp [tLookup, tWalk, tStep, Item.kids, h, tWalk_nil]
